@@ -106,6 +106,9 @@ func (m *Machine) binop(op token.Token, xt types.Type, x, y Value, yt types.Type
 		if m.branch(c.Eq(b, c.BV(0, b.W))) {
 			m.goPanic("integer divide by zero")
 		}
+		if op == token.REM && b.IsConst() && b.C != 0 && !a.IsConst() && m.isMultiple(a, b.C) {
+			return c.BV(0, a.W) // dividend is a known multiple of the constant divisor (calendar model)
+		}
 		if op == token.QUO {
 			if signed {
 				return c.Sdiv(a, b)
